@@ -62,6 +62,12 @@ def run(chk: Check) -> None:
     _validation(chk)
     _no_swallow(chk)
     # "can be saved again": every loaded table keeps its bytes and type (C14's loader half)
+    # what save writes is loadable: modules go out in list order (references point backwards)
+    from .c02 import _facts as _c02_facts, _whole_collections
+    schema_, pf_ = _c02_facts(chk)
+    sub = chk.sub()
+    _whole_collections(sub, schema_, pf_, [m for m in schema_.reachable("IR")] + ["Offset"])
+    chk.adopt(sub, lambda o: o.construct.endswith(":list-order"), "R17.5")
     from .c14 import _from_protobuf as _aux_from_protobuf
     sub = chk.sub()
     _aux_from_protobuf(sub, chk.repo.cls("AuxData"))
